@@ -166,6 +166,29 @@ func c02Judge(w *mon.W, id string, x *oracle.Loc, parent string, viaParse bool) 
 				}
 			}
 			parsed, parsedOK = s.Features[0].SequenceLocation, true
+			// the same record as one of several in a file: every record's features report bases of their own record
+			other := strings.Repeat("t", 1+len(parent)/2)
+			files := [][2]string{{rec + minimalRecord(other, "1"), "first"}, {minimalRecord(other, "1") + rec, "last"}}
+			for _, f := range files {
+				var many []poly.Sequence
+				if p := mon.Try(func() { many = genbank.ParseMulti([]byte(f[0])) }); p != "" || len(many) != 2 {
+					w.Violation(id, fmt.Sprintf("genbank.ParseMulti of a two-record file (the record with location %s %s): %s, %d results", clip(text, 120), f[1], p, len(many)), rep)
+					continue
+				}
+				idx, oidx := 0, 1
+				if f[1] == "last" {
+					idx, oidx = 1, 0
+				}
+				var got, gotOther string
+				p := mon.Try(func() {
+					got = many[idx].Features[0].GetSequence()
+					gotOther = many[oidx].Features[0].GetSequence()
+				})
+				w.Add("through_genbank_ParseMulti", 1)
+				if p != "" || got != want || gotOther != "t" {
+					w.Violation(id, fmt.Sprintf("two-record file, the record with location %s %s: its feature reports %q (INSDC reading %q), the other record's feature 1 reports %q (its base is \"t\") %s", clip(text, 120), f[1], clip(got, 60), clip(want, 60), clip(gotOther, 20), p), rep)
+				}
+			}
 		}
 	}
 	if HookAvailable {
